@@ -192,6 +192,7 @@ class StandInLock:
         vc.locks[self.path] = a.proc.pid
         self._held = True
         vc.emit("acquire", lock=name)
+        vc.yield_point()     # a kill point inside the locked section
         return self
 
     def release(self, force=False):
